@@ -104,7 +104,16 @@ fn check(c: &Case, st: &mut Stats) -> CheckResult {
     let mut env = Env::default();
     let lines: Vec<String> = c.ins.iter().map(|i| render_ins(i, &mut env)).collect();
     let hazard = env.fn_value_redefined;
-    let sig = |base: &str| if hazard { format!("{base}:function-value-redefined") } else { base.to_string() };
+    let early_product = env.early_product;
+    let sig = |base: &str| {
+        if early_product && base == "batch-differs" {
+            format!("{base}:unit-defined-later-in-same-input")
+        } else if hazard {
+            format!("{base}:function-value-redefined")
+        } else {
+            base.to_string()
+        }
+    };
     let desc = || format!("inputs:\n---\n{}\n---", lines.join("\n---\n"));
     // (1) line by line
     let (ctx_a, a) = run_inputs(&lines, "line-by-line").map_err(|f| Failure::new("harness", f.what))?;
@@ -221,28 +230,56 @@ fn check(c: &Case, st: &mut Stats) -> CheckResult {
         let rest: Vec<String> = c.ins[k..].iter().map(|i| render_ins(i, &mut env_rest)).collect();
         let mut env_alt = env_p.clone();
         let alt: Vec<String> = c.alt.iter().map(|i| render_ins(i, &mut env_alt)).collect();
-        let (mut orig, _) = run_inputs(&prefix, "prefix").map_err(|f| Failure::new("harness", f.what))?;
+        let (mut orig, prefix_run) = run_inputs(&prefix, "prefix").map_err(|f| Failure::new("harness", f.what))?;
         let mut copy = orig.clone();
         // interleave the two continuations
         let n = rest.len().max(alt.len());
+        let (mut orig_out, mut copy_out): (Vec<(Option<String>, Vec<String>)>, Vec<(Option<String>, Vec<String>)>) = (vec![], vec![]);
         for i in 0..n {
             if let Some(l) = rest.get(i) {
                 let o = eval(&mut orig, l);
                 if !o.ok() {
                     return Err(Failure::new(sig("copy-not-independent"), format!("original session: `{l}` fails after the copy ran other inputs: {}", o.summary())));
                 }
+                orig_out.push((o.result_text.clone(), o.prints.clone()));
             }
             if let Some(l) = alt.get(i) {
                 let o = eval(&mut copy, l);
                 if !o.ok() {
                     return Err(Failure::new(sig("copy-not-independent"), format!("copied session: `{l}` fails: {}", o.summary())));
                 }
+                copy_out.push((o.result_text.clone(), o.prints.clone()));
             }
         }
         // never-cloned references
         let mut ref_alt_inputs = prefix.clone();
         ref_alt_inputs.extend(alt.iter().cloned());
         let (_, ref_alt) = run_inputs(&ref_alt_inputs, "reference").map_err(|f| Failure::new("harness", f.what))?;
+        // every result and print of the two continuations equals the never-copied runs
+        if prefix.len() + rest.len() == lines.len() && prefix.iter().chain(rest.iter()).eq(lines.iter()) {
+            let want_results = &a.results[k..];
+            let got_results: Vec<Option<String>> = orig_out.iter().map(|o| o.0.clone()).collect();
+            let want_prints = &a.prints[prefix_run.prints.len().min(a.prints.len())..];
+            let got_prints: Vec<String> = orig_out.iter().flat_map(|o| o.1.clone()).collect();
+            if want_results != got_results.as_slice() || want_prints != got_prints.as_slice() {
+                return Err(Failure::new(
+                    sig("copy-not-independent"),
+                    format!("the original session, continued while its copy ran other inputs, shows {got_results:?} / prints {got_prints:?}; a never-copied session shows {want_results:?} / {want_prints:?}; prefix {k} inputs, alt:\n{}\n{}", alt.join("\n"), desc()),
+                ));
+            }
+        }
+        {
+            let want_results = &ref_alt.results[k..];
+            let got_results: Vec<Option<String>> = copy_out.iter().map(|o| o.0.clone()).collect();
+            let want_prints = &ref_alt.prints[prefix_run.prints.len().min(ref_alt.prints.len())..];
+            let got_prints: Vec<String> = copy_out.iter().flat_map(|o| o.1.clone()).collect();
+            if want_results != got_results.as_slice() || want_prints != got_prints.as_slice() {
+                return Err(Failure::new(
+                    sig("copy-not-independent"),
+                    format!("the copied session shows {got_results:?} / prints {got_prints:?}; a never-copied session with the same inputs shows {want_results:?} / {want_prints:?}; prefix {k} inputs, alt:\n{}\n{}", alt.join("\n"), desc()),
+                ));
+            }
+        }
         if let Some(x) = diff(&session_digest(&orig), &a.digest, "original-after-copy", "never-copied") {
             return Err(Failure::new(sig("copy-not-independent"), format!("{x}; prefix {k} inputs, alt:\n{}\n{}", alt.join("\n"), desc())));
         }
